@@ -11,6 +11,7 @@ var commands = map[string]func([]string){
 	"heap":        cmdHeap,
 	"output":      cmdOutput,
 	"det":         cmdDet,
+	"corpus":      cmdCorpus,
 	"forms":       cmdForms,
 	"lits-num":    cmdLitsNum,
 	"lits-str":    cmdLitsStr,
